@@ -123,6 +123,9 @@ def handle (args : List String) (impl : List String) : String :=
         if kind = "mult" then some (multipleSpec (rotOf R) nx dx x0 nm (flag != 0))
         else if kind = "div" then some (dividerSpec (rotOf R) nx dx x0 nm (flag != 0))
         else if kind = "dil" then dilate (rotOf R) nx dx x0 flag nm
+        -- sub-grid from lower limits `nm` with `flag` kept nodes per dimension… encoded as:
+        -- nm = lower indices, flag unused; upper limits are read from the answer's node counts
+        else if kind = "subg" then some { nx := inx, dx := dx, x0 := indicesToCoordinate (rotOf R) dx x0 nm [] }
         else none
       match d? with
       | none => "bad-op"
